@@ -169,6 +169,31 @@ def justified_skip(cube):
     return True
 
 
+def loop_total(ctx, m, fn_site, rule="R1"):
+    """nothing leaves an iteration of the per-entry loop by an exception (also used by C13: a junk
+    entry must end in 'insufficient signatures', not in an internal error of another class)"""
+    seen = set()
+    for p in m.loop_escapes:
+        x = p.value
+        k = (x.exc, x.chain[-1].key())
+        if k in seen:
+            continue
+        seen.add(k)
+        ctx.ob(
+            rule,
+            "loop-escape|%s|%s" % k,
+            loc(x.chain[-1]),
+            "%s (%s) can escape the per-entry loop: one malformed entry aborts verification of an otherwise sufficient envelope" % (x.exc, x.why),
+            False,
+            {"call chain": " <- ".join(loc(s) for s in x.chain), "construct": x.chain[-1].text},
+        )
+    if not m.loop_escapes:
+        ctx.ob(rule, "loop-body-total", fn_site.loc(), "loop body walked with an unconstrained key/value: %d paths, none leaves the loop by an exception" % len(m.body), True)
+    ctx.count(rule + ".body_paths", len(m.body))
+    ctx.floor(rule + ".body_paths", 6)
+
+
+
 def run(ctx, deps=True):
     eng = ctx.eng
     ctx.assume("A1", "A2", "A3", "A5", "A6", "A8")
@@ -196,25 +221,7 @@ def run(ctx, deps=True):
     m.require_sigmap_loop()
 
     # ---- R1: nothing leaves a loop iteration
-    seen = set()
-    for p in m.loop_escapes:
-        x = p.value
-        k = (x.exc, x.chain[-1].key())
-        if k in seen:
-            continue
-        seen.add(k)
-        ctx.ob(
-            "R1",
-            "loop-escape|%s|%s" % k,
-            loc(x.chain[-1]),
-            "%s (%s) can escape the per-entry loop: one malformed entry aborts verification of an otherwise sufficient envelope" % (x.exc, x.why),
-            False,
-            {"call chain": " <- ".join(loc(s) for s in x.chain), "construct": x.chain[-1].text},
-        )
-    if not m.loop_escapes:
-        ctx.ob("R1", "loop-body-total", fn_site.loc(), "loop body walked with an unconstrained key/value: %d paths, none leaves the loop by an exception" % len(m.body), True)
-    ctx.count("R1.body_paths", len(m.body))
-    ctx.floor("R1.body_paths", 6)
+    loop_total(ctx, m, fn_site, "R1")
 
     # ---- R2: decision function
     cubes = []
